@@ -60,6 +60,23 @@ func userOf(id string) *ptttype.UserecRaw {
 	return u
 }
 
+// register: one registration request. newreg = through ptt.NewRegister, the request entry (it builds
+// the record from the request and calls SetupNewUser); else ptt.SetupNewUser with a record built here.
+func register(id string, newreg bool) error {
+	if !newreg {
+		return ptt.SetupNewUser(userOf(id))
+	}
+	userID := &ptttype.UserID_t{}
+	copy(userID[:], id)
+	ip := &ptttype.IPv4_t{}
+	copy(ip[:], "127.0.0.1")
+	nick := &ptttype.Nickname_t{}
+	copy(nick[:], "verif")
+	_, _, err := ptt.NewRegister(userID, []byte("123123"), ip, &ptttype.Email_t{}, false, false,
+		nick, &ptttype.RealName_t{}, &ptttype.Career_t{}, &ptttype.Address_t{}, true)
+	return err
+}
+
 func classify(err error) string {
 	switch {
 	case err == nil:
@@ -127,12 +144,13 @@ func childMain(home string, shmKey, semKey int, light bool) {
 			} else {
 				say("inited ok")
 			}
-		case "start":
+		case "start", "startn":
 			if len(f) < 3 {
 				continue
 			}
 			tag, _ := strconv.Atoi(f[1])
 			id := f[2]
+			newreg := f[0] == "startn"
 			ch := make(chan struct{}, 1)
 			tmu.Lock()
 			gate[tag] = ch
@@ -142,7 +160,7 @@ func childMain(home string, shmKey, semKey int, light bool) {
 				tmu.Lock()
 				tagOf[g] = tag
 				tmu.Unlock()
-				res := hx.CallSync(func() string { return classify(ptt.SetupNewUser(userOf(id))) })
+				res := hx.CallSync(func() string { return classify(register(id, newreg)) })
 				tmu.Lock()
 				delete(tagOf, g)
 				tmu.Unlock()
@@ -338,6 +356,7 @@ type ctl struct {
 	epoch   int
 	tidOf   map[string]int // goroutines of this process
 	procs   []int          // thread -> process (0 = this process)
+	newreg  bool           // requests go through ptt.NewRegister (ops nregp / nregx)
 	legacy  bool           // `reg` ops: a release into the lock segment while another thread waits is not driven
 	gate    []chan struct{}
 	events  []chan event
@@ -431,14 +450,18 @@ func (c *ctl) start(t int) {
 			spawnFails++
 			return
 		}
-		fmt.Fprintf(ch.in, "start %d %s\n", c.tag(t), c.ids[t])
+		cmd := "start"
+		if c.newreg {
+			cmd = "startn"
+		}
+		fmt.Fprintf(ch.in, "%s %d %s\n", cmd, c.tag(t), c.ids[t])
 		return
 	}
 	go func() {
 		c.mu.Lock()
 		c.tidOf[goid()] = t
 		c.mu.Unlock()
-		res := hx.CallSync(func() string { return classify(ptt.SetupNewUser(userOf(c.ids[t]))) })
+		res := hx.CallSync(func() string { return classify(register(c.ids[t], c.newreg)) })
 		c.events[t] <- event{"done", res}
 	}()
 }
@@ -619,7 +642,32 @@ func (c *ctl) release(t int) {
 	}
 	if !c.started[t] {
 		c.started[t] = true
+		held := c.semHeld()
 		c.start(t)
+		if held {
+			// the call can return or reach reg.afterCheck without the semaphore; if instead the kernel counts one
+			// more waiter, the request went for the passwd lock before its first point (the model never does)
+			deadline := time.Now().Add(2 * grace)
+			want := len(c.waiters()) + 1
+			for {
+				select {
+				case ev := <-c.events[t]:
+					c.apply(t, ev)
+					return
+				default:
+				}
+				if n := semWaiters(); n >= want {
+					c.blocked[t] = true
+					c.state[t] = "blocked"
+					return
+				}
+				if time.Now().After(deadline) {
+					c.stalled(t, "did not reach its first point")
+					return
+				}
+				time.Sleep(100 * time.Microsecond)
+			}
+		}
 		if !c.await(t, 2*grace) {
 			c.stalled(t, "did not reach its first point")
 		}
@@ -950,6 +998,7 @@ type kase struct {
 	label  string
 	pre    []string // registered before the history, then the index is reloaded (ids of the `colliders` pool)
 	victim int      // expiry family (`regx` ops): 1 + the slot (0-based) of the account to expire; 0 = none
+	newreg bool     // through ptt.NewRegister (ops nregp / nregx)
 	stale  bool     // expiry family: .fresh exists but is three hours old (else it is missing)
 }
 
@@ -996,6 +1045,7 @@ func runScheduleOnce(k kase, nontrivial bool, final bool) bool {
 		procs = make([]int, n)
 	}
 	c := newCtl(ids, procs, legacy)
+	c.newreg = k.newreg && !legacy
 	c.fifo = fifo
 	defer func() {
 		if c.wfd >= 0 {
@@ -1043,10 +1093,14 @@ func runScheduleOnce(k kase, nontrivial bool, final bool) bool {
 		if legacy {
 			return fmt.Sprintf("reg %d %s %s %s", ptttype.MAX_USERS, join(taken), join(idc), join(full))
 		}
-		if k.victim > 0 {
-			return fmt.Sprintf("regx %d %s %s %s %d %s", ptttype.MAX_USERS, join(taken), join(idc), join(procs), k.victim-1, join(full))
+		pre := ""
+		if c.newreg {
+			pre = "n"
 		}
-		return fmt.Sprintf("regp %d %s %s %s %s", ptttype.MAX_USERS, join(taken), join(idc), join(procs), join(full))
+		if k.victim > 0 {
+			return pre + fmt.Sprintf("regx %d %s %s %s %d %s", ptttype.MAX_USERS, join(taken), join(idc), join(procs), k.victim-1, join(full))
+		}
+		return pre + fmt.Sprintf("regp %d %s %s %s %s", ptttype.MAX_USERS, join(taken), join(idc), join(procs), join(full))
 	}
 	type rec struct{ op, obs, label string }
 	var recs []rec
@@ -1464,6 +1518,11 @@ func main() {
 			if len(f) == 2 && f[0] == "peer" && f[1] == "0" {
 				peerPhase()
 			}
+			newreg := false
+			if len(f) > 0 && (f[0] == "nregp" || f[0] == "nregx") {
+				newreg = true
+				f[0] = f[0][1:]
+			}
 			if (len(f) == 5 && f[0] == "reg") || (len(f) == 6 && f[0] == "regp") || (len(f) == 7 && f[0] == "regx") {
 				// ids are replayed by their codes: equal codes = the same id in different letter case;
 				// codes 900+k = the k-th id that shares the hash bucket of the empty id
@@ -1488,7 +1547,21 @@ func main() {
 						pre = append(pre, colliders[v-900])
 					}
 				}
-				k := kase{ids: ids, fillTo: ptttype.MAX_USERS - free - len(pre), pre: pre, sched: parseInts(f[len(f)-1])}
+				k := kase{ids: ids, fillTo: ptttype.MAX_USERS - free - len(pre), pre: pre, sched: parseInts(f[len(f)-1]), newreg: newreg}
+				if f[0] == "regx" {
+					// ids whose code is a taken slot's code are that slot's account (a filler): requests for the expired id
+					tk := parseInts(f[2])
+					for i, v := range parseInts(f[3]) {
+						for slot, c := range tk {
+							if c == v && c != 0 && slot >= 40 && v < 900 {
+								k.ids[i] = fmt.Sprintf("filler%03d", slot-40)
+								if i%2 == 0 {
+									k.ids[i] = strings.ToUpper(k.ids[i])
+								}
+							}
+						}
+					}
+				}
 				if f[0] == "regx" {
 					k.procs = parseInts(f[4])
 					v, _ := strconv.Atoi(f[5])
@@ -1685,6 +1758,80 @@ func main() {
 			sc := randomSchedule(n, 0)
 			sc = append(sc, sc[:n]...) // the cleaner needs one release more
 			runSchedule(kase{ids: xids[2][:n], procs: pr, fillTo: ptttype.MAX_USERS, victim: 1 + 41 + run.R.Intn(9), stale: run.R.Intn(2) == 0, sched: sc, label: "expiry"}, true)
+		}
+	}
+
+	// ---- 2d. the request entry: the same families through ptt.NewRegister -----------------------------
+	// (the record is built by the code under test, per request; whatever NewRegister does around
+	// SetupNewUser — retries, take-overs — is part of the registration)
+	{
+		runN := func(ids []string, procs []int, fillTo, sample int) {
+			n := len(ids)
+			if sample == 0 && n == 2 {
+				for _, sc := range all2 {
+					runSchedule(kase{ids: ids, procs: procs, fillTo: fillTo, sched: sc, label: "newreg", newreg: true}, true)
+				}
+				return
+			}
+			exhaustive = false
+			for i := 0; i < sample; i++ {
+				var sc []int
+				if n == 2 {
+					sc = withInits(all2[run.R.Intn(len(all2))], run.R.Intn(2))
+				} else {
+					sc = randomSchedule(n, run.R.Intn(2))
+				}
+				runSchedule(kase{ids: ids, procs: procs, fillTo: fillTo, sched: sc, label: "newreg", newreg: true}, true)
+			}
+		}
+		tri := []string{"tri1", "TRI1", "tri2"}
+		m := 1
+		if thorough {
+			m = 10
+		}
+		runN(same, []int{0, 0}, 0, 0)
+		runN(cased, []int{0, 0}, 0, 0)
+		runN(diff, []int{0, 0}, 0, 0)
+		runN(last, []int{0, 0}, full, 20*m)
+		runN(tri, []int{0, 0, 0}, 0, 40*m)
+		runN([]string{"tri1", "tri2", "tri3"}, []int{0, 0, 0}, ptttype.MAX_USERS-2, 20*m)
+		runN(diff, []int{1, 1}, 0, 25*m) // two requests of one server process
+		runN(same, []int{0, 1}, 0, 20*m)
+		runN(cased, []int{1, 2}, 0, 20*m)
+		runN(tri, []int{0, 1, 1}, 0, 25*m)
+		runN([]string{"quad1", "QUAD1", "quad2", "quad3"}, []int{0, 0, 1, 1}, 0, 20*m)
+		// requests for the id of the EXPIRED account (and a case variant) behind a registration that is held
+		// inside the locked section: the id is still in the index, its record is (being) zeroed
+		for pi, pr := range [][]int{{0, 0, 0}, {0, 1, 1}, {1, 0, 2}, {1, 1, 1}} {
+			for si, sc := range [][]int{
+				{0, 0, 0, 1, 2, 0, 0},    // record zeroed, cleaner stopped at reg.afterLock, then the two requests
+				{0, 0, 0, 0, 1, 2, 0},    // … stopped at reg.beforeUnlock
+				{0, 0, 1, 0, 2, 0, 0},    // one request while the tear-down is under way, one after
+				{0, 0, 0, 0, 0, 1, 2, 2}, // after the cleaner has returned
+			} {
+				v := 41 + (pi+si)%9
+				vid := fmt.Sprintf("filler%03d", v-40)
+				for _, newreg := range []bool{true, false} {
+					if !thorough && !newreg && (pi+si)%3 != 0 {
+						continue
+					}
+					runSchedule(kase{ids: []string{"expir01", vid, strings.ToUpper(vid)}, procs: pr, fillTo: ptttype.MAX_USERS, victim: 1 + v,
+						stale: si%2 == 0, sched: sc, label: "expiry-takeover", newreg: newreg}, true)
+				}
+			}
+		}
+		nx := 20 * m
+		for i := 0; i < nx; i++ {
+			v := 41 + run.R.Intn(9)
+			vid := fmt.Sprintf("filler%03d", v-40)
+			pr := []int{run.R.Intn(3), run.R.Intn(3), run.R.Intn(3)}
+			sc := randomSchedule(3, 0)
+			sc = append(sc, 0, 1, 2)
+			ids := []string{"expir01", vid, strings.ToUpper(vid)}
+			if run.R.Intn(2) == 0 {
+				ids = []string{vid, "expir01", strings.ToUpper(vid)}
+			}
+			runSchedule(kase{ids: ids, procs: pr, fillTo: ptttype.MAX_USERS, victim: 1 + v, stale: run.R.Intn(2) == 0, sched: sc, label: "expiry-takeover", newreg: true}, true)
 		}
 	}
 
